@@ -213,7 +213,9 @@ META = {
                   "spaces; for every conformable tree of Scaled/Sum/Product discrete operators to_dense is the matrix "
                   "expression and _matvec = to_dense()x, shape guards accept exactly conformable operands, real operator x "
                   "complex vector splits into real and imaginary parts; blocked pack/unpack are inverse and projection "
-                  "unpacking is right iff sliced by dual dof counts (refuted with witness for the pinned recipe); every "
+                  "unpacking is right iff sliced by dual dof counts (refuted with witness for the pinned recipe); the dense block "
+                  "matrix of a BlockedDiscreteOperator (None = zero block) times x equals the blockwise matvec; Dense/Sparse/"
+                  "Diagonal/RankOne transposes have the transposed matrix; every "
                   "attribute/method name used on self or operands in the five algebra files resolves "
                   "(the regenerated list of unresolved names is empty); potential algebra (sums, differences, scalar multiples "
                   "keep space/components/points and evaluate to the matrix expression, ValueError iff incompatible); "
